@@ -1,9 +1,165 @@
 import OdcGeo.Model.C04
+import OdcGeo.Drv.C17
 namespace OdcGeo.C04.Drv
-open OdcGeo OdcGeo.IO
+open OdcGeo OdcGeo.IO OdcGeo.C17 OdcGeo.C04 OdcGeo.NpArray
+open OdcGeo.C17.Drv (parsePIdx? fmtNS)
+
+def parseInts? (s : String) : Option (List Int) := parseList? parseInt? s
+
+/-- `r:N:n` or `v:[c1,c2,…]` -/
+def parseTiling? (s : String) : Option Tiling :=
+  match s.splitOn ":" with
+  | ["r", a, b] => do let N ← parseInt? a; let n ← parseInt? b; pure (.reg N n)
+  | ["v", l] => (parseInts? l).map Tiling.var
+  | _ => none
+
+/-- `y;x` -/
+def parsePair? (s : String) : Option (Int × Int) :=
+  match s.splitOn ";" with
+  | [a, b] => do let a ← parseInt? a; let b ← parseInt? b; pure (a, b)
+  | _ => none
+
+def fmtInts (xs : List Int) : String := fmtList fmtInt xs
+def fmtPair (p : Int × Int) : String := s!"{p.1};{p.2}"
+
+def fmtTiling2 (t : Tiling2) : String :=
+  s!"{t.y.base} {t.y.count} {t.x.base} {t.x.count} " ++
+    fmtRes (fun (a, b) => s!"{fmtInts a} {fmtInts b}") (chunks2 t)
+
+def fmtGBox (g : GBox) : String := s!"{g.ny} {g.nx} {fmtAff g.A}"
+
+/-- cell value of the synthetic block stored under `key` at block-local index `(l, y, x, t)` -/
+def cellVal (m : Int) (key : Int × Int) (l : List Int) (y x : Int) (t : List Int) : Int :=
+  let w (base : Int) (v : List Int) : Int :=
+    (v.zipIdx.map fun (a, i) => a * ((i : Int) + 1) * base).foldl (· + ·) 0
+  1 + (key.1 * 7 + key.2 * 13 + y * 3 + x * 5 + w 17 l + w 11 t) % m
+
+def irange (n : Int) : List Int := (List.range n.toNat).map fun (k : Nat) => (k : Int)
+
+def idxVectors (shape : List Int) : List (List Int) :=
+  (ndindex (shape.map Int.toNat)).map fun v => v.map fun (k : Nat) => (k : Int)
 
 def run (args : List String) : Option String :=
   match args with
+  -- regular tiles, one axis
+  | ["t", "count", N, n] => do
+    let N ← parseInt? N; let n ← parseInt? n
+    pure (fmtRes fmtInt (mkCount N n))
+  | ["t", "get", N, n, i] => do
+    let N ← parseInt? N; let n ← parseInt? n; let i ← parsePIdx? i
+    pure (fmtRes fmtNS (getItem N n i))
+  | ["t", "shape", N, n, i] => do
+    let N ← parseInt? N; let n ← parseInt? n; let i ← parseInt? i
+    pure (fmtRes fmtInt (tileShape N n i))
+  | ["t", "chunks", N, n] => do
+    let N ← parseInt? N; let n ← parseInt? n
+    pure (fmtRes fmtInts (chunks N n))
+  | ["t", "locate", N, n, y] => do
+    let N ← parseInt? N; let n ← parseInt? n; let y ← parseInt? y
+    pure (fmtRes fmtInt (locate N n y))
+  | ["t", "crop", N, n, i] => do
+    let N ← parseInt? N; let n ← parseInt? n; let i ← parsePIdx? i
+    pure (fmtRes (fun N' => s!"{N'} {count N' n}") (crop N n i))
+  | ["t", "clip", N, n, sel] => do
+    let N ← parseInt? N; let n ← parseInt? n; let sel ← parseInts? sel
+    pure (fmtRes (fun (N', r, new) => s!"{N'} {count N' n} {fmtNS r} {fmtInts new}")
+      (clipTiles N n sel))
+  -- variable tiles, one axis
+  | ["v", "info", ch] => do
+    let ch ← parseInts? ch
+    pure s!"{vcount ch} {vbase ch} {fmtInts (vchunks ch)} {fmtInts (offsets ch)}"
+  | ["v", "get", ch, i] => do
+    let ch ← parseInts? ch; let i ← parsePIdx? i
+    pure (fmtRes fmtNS (vgetItem ch i))
+  | ["v", "shape", ch, i] => do
+    let ch ← parseInts? ch; let i ← parseInt? i
+    pure (fmtRes fmtInt (vtileShape ch i))
+  | ["v", "locate", ch, y] => do
+    let ch ← parseInts? ch; let y ← parseInt? y
+    pure (fmtRes fmtInt (vlocate ch y))
+  | ["v", "crop", ch, i] => do
+    let ch ← parseInts? ch; let i ← parsePIdx? i
+    pure (fmtInts (vcrop ch i))
+  | ["v", "clip", ch, sel] => do
+    let ch ← parseInts? ch; let sel ← parseInts? sel
+    pure (fmtRes (fun (c, r, new) => s!"{fmtInts c} {fmtNS r} {fmtInts new}") (vclipTiles ch sel))
+  -- 2-D lift
+  | ["t2", "get", ty, tx, iy, ix] => do
+    let ty ← parseTiling? ty; let tx ← parseTiling? tx
+    let iy ← parsePIdx? iy; let ix ← parsePIdx? ix
+    pure (fmtRes (fun (a, b) => s!"{fmtNS a} {fmtNS b}") (getItem2 ⟨ty, tx⟩ iy ix))
+  | ["t2", "shape", ty, tx, iy, ix] => do
+    let ty ← parseTiling? ty; let tx ← parseTiling? tx
+    let iy ← parseInt? iy; let ix ← parseInt? ix
+    pure (fmtRes (fun (a, b) => s!"{a} {b}") (tileShape2 ⟨ty, tx⟩ iy ix))
+  | ["t2", "chunks", ty, tx] => do
+    let ty ← parseTiling? ty; let tx ← parseTiling? tx
+    pure (fmtRes (fun (a, b) => s!"{fmtInts a} {fmtInts b}") (chunks2 ⟨ty, tx⟩))
+  | ["t2", "locate", ty, tx, py, px] => do
+    let ty ← parseTiling? ty; let tx ← parseTiling? tx
+    let py ← parseInt? py; let px ← parseInt? px
+    pure (fmtRes (fun (a, b) => s!"{a} {b}") (locate2 ⟨ty, tx⟩ py px))
+  | ["t2", "crop", ty, tx, iy, ix] => do
+    let ty ← parseTiling? ty; let tx ← parseTiling? tx
+    let iy ← parsePIdx? iy; let ix ← parsePIdx? ix
+    pure (fmtRes fmtTiling2 (crop2 ⟨ty, tx⟩ iy ix))
+  -- GeoboxTiles
+  | ["g", "get", ny, nx, A, ty, tx, iy, ix] => do
+    let ny ← parseInt? ny; let nx ← parseInt? nx; let A ← parseAff? A
+    let ty ← parseTiling? ty; let tx ← parseTiling? tx
+    let iy ← parsePIdx? iy; let ix ← parsePIdx? ix
+    pure (fmtRes fmtGBox (GeoboxTiles.getItem ⟨⟨ny, nx, A⟩, ⟨ty, tx⟩⟩ iy ix))
+  | ["g", "crop", ny, nx, A, ty, tx, iy, ix] => do
+    let ny ← parseInt? ny; let nx ← parseInt? nx; let A ← parseAff? A
+    let ty ← parseTiling? ty; let tx ← parseTiling? tx
+    let iy ← parsePIdx? iy; let ix ← parsePIdx? ix
+    pure (fmtRes (fun g => s!"{fmtGBox g.base} | {fmtTiling2 g.tiles}")
+      (GeoboxTiles.crop ⟨⟨ny, nx, A⟩, ⟨ty, tx⟩⟩ iy ix))
+  | ["g", "clip", ny, nx, A, ty, tx, sel] => do
+    let ny ← parseInt? ny; let nx ← parseInt? nx; let A ← parseAff? A
+    let ty ← parseTiling? ty; let tx ← parseTiling? tx
+    let sel ← parseList? parsePair? sel
+    pure (fmtRes (fun (g, new) =>
+        s!"{fmtGBox g.base} | {fmtTiling2 g.tiles} | {fmtList fmtPair new}")
+      (GeoboxTiles.clip ⟨⟨ny, nx, A⟩, ⟨ty, tx⟩⟩ sel))
+  -- reference semantics of numpy / tuple operations
+  | ["ss", xs, key] => do
+    let xs ← parseInts? xs; let key ← parseInt? key
+    pure s!"{searchsortedRight xs key} {linearScanRight xs key}"
+  | ["npget", xs, i] => do
+    let xs ← parseInts? xs; let i ← parseInt? i
+    pure (fmtRes fmtInt (npGet xs i))
+  | ["pyslice", xs, a, b] => do
+    let xs ← parseInts? xs; let a ← parseInt? a; let b ← parseInt? b
+    pure (fmtInts (pySlice xs a b))
+  | ["npassign", nd, ns, d, s] => do
+    let nd ← parseInt? nd; let ns ← parseInt? ns
+    let d ← parsePIdx? d; let s ← parsePIdx? s
+    match d, s with
+    | .slc (some d0) (some d1), .slc (some s0) (some s1) =>
+      pure (fmtRes (fun f => fmtList (fmtOpt fmtInt) ((irange nd).map f))
+        (assignMap nd ns ⟨d0, d1⟩ ⟨s0, s1⟩))
+    | _, _ => none
+  -- BlockAssembler
+  | ["asm", chy, chx, keys, lead, trail, rl, ry, rx, rt, m] => do
+    let chy ← parseInts? chy; let chx ← parseInts? chx
+    let keys ← parseList? parsePair? keys
+    let lead ← parseInts? lead; let trail ← parseInts? trail
+    let rl ← parseList? parsePIdx? rl; let rt ← parseList? parsePIdx? rt
+    let ry ← parsePIdx? ry; let rx ← parsePIdx? rx
+    let m ← parseInt? m
+    let a : Assembler (Option Int) :=
+      { chy, chx, present := keys, lead, trail,
+        blk := fun key l y x t => some (cellVal m key l y x t) }
+    pure (fmtRes (fun ((sl, sy, sx, st), xx) =>
+        let cells := (idxVectors sl).flatMap fun l => (irange sy).flatMap fun y =>
+          (irange sx).flatMap fun x => (idxVectors st).map fun t => xx l y x t
+        s!"{fmtInts sl} {sy} {sx} {fmtInts st} {fmtList (fmtOpt fmtInt) cells}")
+      (extract a none rl ry rx rt))
+  | ["planes", lead, trail] => do
+    let lead ← parseList? parseNat? lead; let trail ← parseList? parseNat? trail
+    pure (fmtList (fun p => "(" ++ ";".intercalate (p.map (fmtOpt toString)) ++ ")")
+      (planesYX lead trail))
   | _ => none
 
 end OdcGeo.C04.Drv
